@@ -11,6 +11,9 @@
 //!     feasible / optimal / fragment / c15 — which the harness computes with its own (Rust) copy of the
 //!     modelled encoding and the Lean driver recomputes from the Lean model.
 //! Monitor `c15.priority`: brute-force evaluation of the pair condition of C15 on the REAL placement.
+//!
+//! Request classes range over TWO resource kinds: cpus (always asked for) and gpus (optional; a worker may lack them).
+//! Amounts are whole units. A task "fits" iff every kind it asks for fits.
 use std::collections::{BTreeMap, BTreeSet};
 use std::time::{Duration, Instant};
 
@@ -22,7 +25,7 @@ use tako::gateway::{
 };
 use tako::internal::messages::common::TaskFailInfo;
 use tako::internal::messages::worker::{FromWorkerMessage, TaskRunningMsg, WorkerTaskUpdate};
-use tako::resources::{AllocationRequest, ResourceAmount, ResourceDescriptor};
+use tako::resources::{AllocationRequest, ResourceAmount, ResourceDescriptor, ResourceDescriptorItem};
 use tako::server::SchedulerConfig;
 use tako::task::SerializedTaskContext;
 use tako::verif::sched_c15::{Rec, RecBatch, RecMilp, VarKind};
@@ -49,6 +52,8 @@ fn parse_tid(s: &str) -> TaskId {
 #[derive(Debug, Clone)]
 struct WorkerSpec {
     cpus: u32,
+    /// units of the second resource kind (0 = the worker does not have it)
+    gpus: u32,
     /// request classes (index into `Spec::classes`) of the tasks that keep the worker busy
     pre: Vec<usize>,
     /// request classes the worker has rejected (blocked)
@@ -57,8 +62,9 @@ struct WorkerSpec {
 
 #[derive(Debug, Clone)]
 struct Spec {
-    /// (cpu amount in whole units, weight in 1/10000) per request class, in creation order (= rq id order)
-    classes: Vec<(u32, u64)>,
+    /// (cpu amount, gpu amount (0 = no entry) in whole units, weight in 1/10000) per request class, in creation
+    /// order (= rq id order)
+    classes: Vec<(u32, u32, u64)>,
     workers: Vec<WorkerSpec>,
     /// ready tasks: (id, class index, user priority)
     tasks: Vec<(TaskId, usize, i32)>,
@@ -76,12 +82,36 @@ struct WorkerI {
     /// rq ids of the tasks reserved on the worker
     assigned: Vec<u32>,
     blocked: Vec<u32>,
+    /// second resource kind (0 = absent)
+    total2: u64,
+    free2: u64,
 }
 
 #[derive(Debug, Clone)]
 struct ClassI {
     need: u64,
     weight: u64,
+    /// second resource kind (0 = no entry in the request)
+    need2: u64,
+}
+
+/// `WorkerResources::task_max_count_for_request` over the two kinds
+fn fit_count(a1: u64, a2: u64, n1: u64, n2: u64) -> u64 {
+    if n2 == 0 { a1 / n1 } else { (a1 / n1).min(a2 / n2) }
+}
+
+impl ClassI {
+    /// `is_capable_to_run_request` against the total resources
+    fn capable(&self, w: &WorkerI) -> bool {
+        self.need <= w.total && self.need2 <= w.total2
+    }
+    /// `have_immediate_resources_for_rq`
+    fn fits_now(&self, w: &WorkerI) -> bool {
+        self.need <= w.free && self.need2 <= w.free2
+    }
+    fn count_now(&self, w: &WorkerI) -> u64 {
+        fit_count(w.free, w.free2, self.need, self.need2)
+    }
 }
 
 #[derive(Debug, Clone)]
@@ -130,9 +160,16 @@ impl EventProcessor for NoEvents {
     fn on_task_notify(&mut self, _task_id: TaskId, _worker_id: WorkerId, _message: Box<[u8]>) {}
 }
 
-fn worker_config(n: u32, cpus: u32) -> WorkerConfiguration {
+fn worker_config(n: u32, cpus: u32, gpus: u32) -> WorkerConfiguration {
+    let resources = if gpus == 0 {
+        ResourceDescriptor::simple_cpus(cpus)
+    } else {
+        let mut d = ResourceDescriptor::simple_cpus(cpus);
+        d.resources.push(ResourceDescriptorItem::range("gpus", 0, gpus - 1));
+        d
+    };
     WorkerConfiguration {
-        resources: ResourceDescriptor::simple_cpus(cpus),
+        resources,
         listen_address: format!("1.1.1.{n}:123"),
         hostname: format!("test{n}"),
         group: "default".to_string(),
@@ -148,13 +185,20 @@ fn worker_config(n: u32, cpus: u32) -> WorkerConfiguration {
     }
 }
 
-fn cpu_rq(cpus: u32, weight: u64) -> ResourceRequestVariants {
+fn class_rq(cpus: u32, gpus: u32, weight: u64) -> ResourceRequestVariants {
+    let mut resources = smallvec![ResourceRequestEntry {
+        resource: "cpus".to_string(),
+        policy: AllocationRequest::Compact(ResourceAmount::new_units(cpus)),
+    }];
+    if gpus > 0 {
+        resources.push(ResourceRequestEntry {
+            resource: "gpus".to_string(),
+            policy: AllocationRequest::Compact(ResourceAmount::new_units(gpus)),
+        });
+    }
     ResourceRequestVariants::new_simple(ResourceRequest {
         n_nodes: 0,
-        resources: smallvec![ResourceRequestEntry {
-            resource: "cpus".to_string(),
-            policy: AllocationRequest::Compact(ResourceAmount::new_units(cpus)),
-        }],
+        resources,
         min_time: Default::default(),
         weight: tako::resources::ResourceWeight::try_from(weight as f32 / 10_000.0).expect("weight"),
     })
@@ -219,15 +263,15 @@ fn build_real(spec: &Spec) -> Result<Real, String> {
     );
     server.set_client_events(Box::new(NoEvents));
     let mut real = Real { server, now: Instant::now(), rq_ids: Vec::new() };
-    for (cpus, weight) in &spec.classes {
-        let id = real.server.server_ref().get_or_create_resource_rq_id(&cpu_rq(*cpus, *weight));
+    for (cpus, gpus, weight) in &spec.classes {
+        let id = real.server.server_ref().get_or_create_resource_rq_id(&class_rq(*cpus, *gpus, *weight));
         real.rq_ids.push(id);
     }
-    // filler class: 1 cpu (may coincide with a class of the spec)
-    let filler_class = match spec.classes.iter().position(|c| c.0 == 1) {
+    // filler class: 1 cpu, nothing else (may coincide with a class of the spec)
+    let filler_class = match spec.classes.iter().position(|c| c.0 == 1 && c.1 == 0) {
         Some(i) => i,
         None => {
-            let id = real.server.server_ref().get_or_create_resource_rq_id(&cpu_rq(1, 10_000));
+            let id = real.server.server_ref().get_or_create_resource_rq_id(&class_rq(1, 0, 10_000));
             real.rq_ids.push(id);
             real.rq_ids.len() - 1
         }
@@ -235,16 +279,18 @@ fn build_real(spec: &Spec) -> Result<Real, String> {
     let mut fillers: Vec<TaskId> = Vec::new();
     let mut pre_ids: Vec<(TaskId, WorkerId)> = Vec::new();
     for (j, w) in spec.workers.iter().enumerate() {
-        let (wid, _) = real.server.add_worker(worker_config(j as u32 + 1, w.cpus), real.now);
+        let (wid, _) = real.server.add_worker(worker_config(j as u32 + 1, w.cpus, w.gpus), real.now);
         // the worker is filled completely (tasks that keep it busy + rejected dummies + 1-cpu fillers) while it is
         // the only one with free resources, so everything lands on it; dummies and fillers are cancelled afterwards
         let job = JobId::new(9000 + j as u32);
         let mut batch: Vec<(TaskId, usize, i32)> = Vec::new();
         let mut used = 0u32;
+        let mut used2 = 0u32;
         let mut n = 0u32;
         for c in &w.pre {
             batch.push((TaskId::new(job, JobTaskId::new(n)), *c, 0));
             used += spec.classes[*c].0;
+            used2 += spec.classes[*c].1;
             n += 1;
         }
         let mut dummies = Vec::new();
@@ -253,10 +299,11 @@ fn build_real(spec: &Spec) -> Result<Real, String> {
             batch.push((t, *c, 0));
             dummies.push(t);
             used += spec.classes[*c].0;
+            used2 += spec.classes[*c].1;
             n += 1;
         }
-        if used > w.cpus {
-            return Err(format!("worker {j}: busy tasks need {used} > {} cpus", w.cpus));
+        if used > w.cpus || used2 > w.gpus {
+            return Err(format!("worker {j}: busy tasks need {used} cpus {used2} gpus > {} cpus {} gpus", w.cpus, w.gpus));
         }
         let mut my_fillers = Vec::new();
         for _ in used..w.cpus {
@@ -353,11 +400,23 @@ fn read_instance(real: &Real) -> Result<Inst, String> {
             return Err("multi-variant class".into());
         }
         let v = &c[0];
-        if v.n_nodes != 0 || v.entries.len() != 1 || v.entries[0].0 != 0 || v.min_time_ms != 0 {
-            return Err("class outside the cpu-only single-node fragment".into());
+        if v.n_nodes != 0 || v.entries.is_empty() || v.entries.len() > 2 || v.min_time_ms != 0 {
+            return Err("class outside the two-kind single-node fragment".into());
         }
-        let need = v.entries[0].1.ok_or("all-request")?;
-        classes.push(ClassI { need, weight: v.weight });
+        let mut need = 0;
+        let mut need2 = 0;
+        for (rid, amount) in &v.entries {
+            let a = amount.ok_or("all-request")?;
+            match rid {
+                0 => need = a,
+                1 => need2 = a,
+                _ => return Err("third resource kind".into()),
+            }
+        }
+        if need == 0 || (v.entries.len() == 2 && need2 == 0) {
+            return Err("class without cpus / zero entry".into());
+        }
+        classes.push(ClassI { need, weight: v.weight, need2 });
     }
     let mut task_rq = BTreeMap::new();
     for t in &snap.tasks {
@@ -366,7 +425,7 @@ fn read_instance(real: &Real) -> Result<Inst, String> {
     let mut workers = Vec::new();
     for w in &snap.workers {
         let Some((assigned, free, prefilled)) = &w.sn else { return Err("mn worker".into()) };
-        if !prefilled.is_empty() || w.total.len() != 1 || free.len() != 1 || w.stopping {
+        if !prefilled.is_empty() || w.total.is_empty() || w.total.len() > 2 || free.len() != w.total.len() || w.stopping {
             return Err("worker outside the fragment".into());
         }
         let mut a: Vec<u32> = assigned.iter().map(|t| task_rq[t]).collect();
@@ -378,7 +437,15 @@ fn read_instance(real: &Real) -> Result<Inst, String> {
             }
             blocked.push(*rq);
         }
-        workers.push(WorkerI { id: w.id, total: w.total[0], free: free[0], assigned: a, blocked });
+        workers.push(WorkerI {
+            id: w.id,
+            total: w.total[0],
+            free: free[0],
+            assigned: a,
+            blocked,
+            total2: w.total.get(1).copied().unwrap_or(0),
+            free2: free.get(1).copied().unwrap_or(0),
+        });
     }
     if !snap.redirects.is_empty() {
         return Err("redirects".into());
@@ -415,8 +482,8 @@ fn model_batches(inst: &Inst) -> Vec<MBatch> {
     let mut bs: Vec<MBatch> = qs
         .iter()
         .map(|rq| {
-            let need = inst.classes[*rq as usize].need;
-            let limit = inst.workers.iter().filter(|w| w.total >= need).map(|w| (w.free / need).max(1)).sum();
+            let c = &inst.classes[*rq as usize];
+            let limit = inst.workers.iter().filter(|w| c.capable(w)).map(|w| c.count_now(w).max(1)).sum();
             MBatch { rq: *rq, size: 0, limit, reached: false, blocker: false, cuts: vec![] }
         })
         .collect();
@@ -545,46 +612,62 @@ struct Milp {
 }
 
 fn gap(inst: &Inst, high: u32, low: u32, w: &WorkerI) -> u64 {
-    let nh = inst.classes[high as usize].need;
-    let nl = inst.classes[low as usize].need;
-    let mut free = w.total - nh * (w.total / nh);
+    let h = &inst.classes[high as usize];
+    let l = &inst.classes[low as usize];
+    let n = fit_count(w.total, w.total2, h.need, h.need2);
+    let mut free = w.total.saturating_sub(h.need * n);
+    let mut free2 = w.total2.saturating_sub(h.need2 * n);
     for a in &w.assigned {
         if *a != high {
             free = free.saturating_sub(inst.classes[*a as usize].need);
+            free2 = free2.saturating_sub(inst.classes[*a as usize].need2);
         }
     }
-    free / nl
+    fit_count(free, free2, l.need, l.need2)
 }
 
 fn model_milp(inst: &Inst, batches: &[MBatch]) -> Milp {
     let n = inst.workers.len() as u128;
     let g: u128 = inst.workers.iter().map(|w| w.free as u128).sum();
-    let g1 = g.max(1);
-    let mut m = Milp { den: g1 * n * 1_000_000, ..Default::default() };
+    let g2: u128 = inst.workers.iter().map(|w| w.free2 as u128).sum();
+    let (g1m, g2m) = (g.max(1), g2.max(1));
+    let mut m = Milp { den: g1m * g2m * n * 1_000_000, ..Default::default() };
     let mut count_vars: BTreeMap<u32, Vec<Var>> = BTreeMap::new();
     let mut workers = inst.workers.clone();
     workers.sort_by_key(|w| w.id);
     for (widx, w) in workers.iter().enumerate() {
         let mut terms = Vec::new();
+        let mut terms2 = Vec::new();
         for b in batches {
             let c = &inst.classes[b.rq as usize];
-            if !w.blocked.contains(&b.rq) && w.free >= c.need {
+            if !w.blocked.contains(&b.rq) && c.fits_now(w) {
                 let v = Var::P(w.id, b.rq);
-                let weight = if g == 0 { 0 } else { c.need as u128 * (n - widx as u128) * c.weight as u128 * 100 };
-                m.vars.push((v, weight, w.free / c.need));
+                // sum over the entries of the request of amount / (free amount of the kind in the cluster)
+                let share = (if g == 0 { 0 } else { c.need as u128 * g2m }) + (if g2 == 0 { 0 } else { c.need2 as u128 * g1m });
+                let weight = share * (n - widx as u128) * c.weight as u128 * 100;
+                m.vars.push((v, weight, c.count_now(w)));
                 count_vars.entry(b.rq).or_default().push(v);
                 terms.push((v, c.need as u128));
-            } else if b.blocker && w.total >= c.need {
+                if c.need2 != 0 {
+                    terms2.push((v, c.need2 as u128));
+                }
+            } else if b.blocker && c.capable(w) {
                 let v = Var::R(w.id, b.rq);
-                m.vars.push((v, widx as u128 * g1 * 10_000, 1));
+                m.vars.push((v, widx as u128 * g1m * g2m * 10_000, 1));
                 count_vars.entry(b.rq).or_default().push(v);
                 if w.free != 0 {
                     terms.push((v, w.free as u128));
+                }
+                if w.free2 != 0 {
+                    terms2.push((v, w.free2 as u128));
                 }
             }
         }
         if !terms.is_empty() {
             m.rows.push(Row { ge: false, bound: w.free as u128, terms });
+        }
+        if !terms2.is_empty() {
+            m.rows.push(Row { ge: false, bound: w.free2 as u128, terms: terms2 });
         }
     }
     let mut bvars: BTreeSet<(u32, u64)> = BTreeSet::new();
@@ -610,7 +693,7 @@ fn model_milp(inst: &Inst, batches: &[MBatch]) -> Milp {
                 };
                 let mut zero: Vec<Var> = Vec::new();
                 for w in &workers {
-                    if w.total < inst.classes[*brq as usize].need {
+                    if !inst.classes[*brq as usize].capable(w) {
                         continue;
                     }
                     let p = Var::P(w.id, b.rq);
@@ -762,19 +845,23 @@ fn c15_pairs(inst: &Inst, placed: &BTreeMap<TaskId, u32>) -> Vec<PairViolation> 
         if placed.contains_key(h) {
             continue;
         }
-        let need_h = inst.classes[*hc as usize].need;
+        let ch = &inst.classes[*hc as usize];
         // the documented exception: another capable worker is too busy to start it now
-        let waits_for_busy = |w: &WorkerI| inst.workers.iter().any(|o| o.id != w.id && o.total >= need_h && o.free < need_h);
+        let waits_for_busy = |w: &WorkerI| inst.workers.iter().any(|o| o.id != w.id && ch.capable(o) && !ch.fits_now(o));
         for w in &inst.workers {
             if w.blocked.contains(hc) {
                 continue;
             }
-            let kept: u64 = placed
-                .iter()
-                .filter(|(t, pw)| **pw == w.id && info[*t].1 >= *hp)
-                .map(|(t, _)| inst.classes[info[t].0 as usize].need)
-                .sum();
-            if kept + need_h > w.free {
+            // what the tasks of at least h's priority dispatched here take, per resource kind
+            let kept = |f: &dyn Fn(&ClassI) -> u64| -> u64 {
+                placed
+                    .iter()
+                    .filter(|(t, pw)| **pw == w.id && info[*t].1 >= *hp)
+                    .map(|(t, _)| f(&inst.classes[info[t].0 as usize]))
+                    .sum()
+            };
+            // h fits iff EVERY kind fits
+            if kept(&|c| c.need) + ch.need > w.free || kept(&|c| c.need2) + ch.need2 > w.free2 {
                 continue;
             }
             if waits_for_busy(w) {
@@ -796,6 +883,8 @@ fn fragment(inst: &Inst) -> &'static str {
         "F1"
     } else if inst.workers.len() == 1
         && rc <= 2
+        // F2 is proved for ready classes that ask for cpus only (`Instance.CpuOnly`)
+        && inst.queues.iter().enumerate().all(|(c, q)| q.is_empty() || inst.classes[c].need2 == 0)
         && inst.classes.iter().all(|c| c.weight == 10_000)
         && inst.queues.iter().flatten().map(|l| l.0).collect::<BTreeSet<_>>().len() <= 32
     {
@@ -818,6 +907,15 @@ fn scaled_weight(w: f64, den: u128) -> Option<u128> {
     }
 }
 
+/// Is the recorded `f64` weight the exact rational `k / den` up to the rounding of the few float operations that
+/// produced it? (absolute 1e-4 on the scaled value for small denominators, relative 1e-12 for large ones: with two
+/// resource kinds `den` exceeds 2^53, so the scaled weight is not an exactly representable integer any more; a wrong
+/// formula is off by percents, not by 1e-12)
+fn weight_matches(w: f64, k: u128, den: u128) -> bool {
+    let x = w * den as f64;
+    (x - k as f64).abs() <= 1e-4 + 1e-12 * k as f64
+}
+
 fn int_coef(x: f64) -> Option<u128> {
     let y = x * UNIT as f64;
     let r = y.round();
@@ -835,10 +933,19 @@ fn var_of_kind(k: &VarKind) -> Option<Var> {
 
 fn print_instance(t: &mut Trace, inst: &Inst) {
     for w in &inst.workers {
-        t.op(&format!("worker {} {} {} {} {}", w.id, w.total, w.free, list(w.assigned.iter()), list(w.blocked.iter())));
+        t.op(&format!(
+            "worker {} {} {} {} {} {} {}",
+            w.id,
+            w.total,
+            w.free,
+            list(w.assigned.iter()),
+            list(w.blocked.iter()),
+            w.total2,
+            w.free2
+        ));
     }
     for (rq, c) in inst.classes.iter().enumerate() {
-        t.op(&format!("class {rq} {} {}", c.need, c.weight));
+        t.op(&format!("class {rq} {} {} {}", c.need, c.weight, c.need2));
     }
     for (rq, q) in inst.queues.iter().enumerate() {
         t.op(&format!(
@@ -850,12 +957,14 @@ fn print_instance(t: &mut Trace, inst: &Inst) {
 
 fn run_case(t: &mut Trace, idx: u64, subseed: u64, spec: &Spec, stats: &mut Stats) {
     let header = format!(
-        "nw={} nc={} nt={} busy={} blocked={}",
+        "nw={} nc={} nt={} busy={} blocked={} gpuw={} gpuc={}",
         spec.workers.len(),
         spec.classes.len(),
         spec.tasks.len(),
         spec.workers.iter().map(|w| w.pre.len()).sum::<usize>(),
-        spec.workers.iter().map(|w| w.blocked.len()).sum::<usize>()
+        spec.workers.iter().map(|w| w.blocked.len()).sum::<usize>(),
+        spec.workers.iter().filter(|w| w.gpus > 0).count(),
+        spec.classes.iter().filter(|c| c.1 > 0).count()
     );
     t.case(idx, subseed, &header);
     let real = match catch(|| build_real(spec)) {
@@ -954,9 +1063,15 @@ fn run_case(t: &mut Trace, idx: u64, subseed: u64, spec: &Spec, stats: &mut Stat
     if let Some(m) = &rec_milp {
         let names: BTreeMap<usize, Var> = m.vars.iter().filter_map(|v| var_of_kind(&v.kind).map(|x| (v.index, x))).collect();
         let mut vs: Vec<(Var, String)> = Vec::new();
+        // the exact scaled weight the harness' copy of the encoding expects for the variable: printed when the
+        // recorded f64 weight equals it up to float rounding, otherwise the rounded value of the f64 is printed
+        let expected: BTreeMap<Var, u128> = mm.vars.iter().map(|(v, w, _)| (*v, *w)).collect();
         for v in &m.vars {
             if let Some(var) = names.get(&v.index) {
-                let w = scaled_weight(v.weight, mm.den).map(|x| x.to_string()).unwrap_or("!inexact".into());
+                let w = match expected.get(var) {
+                    Some(k) if weight_matches(v.weight, *k, mm.den) => k.to_string(),
+                    _ => scaled_weight(v.weight, mm.den).map(|x| format!("{x} !differs")).unwrap_or("!inexact".into()),
+                };
                 let dom = match (var, v.domain) {
                     (Var::P(..), 2) | (Var::R(..), 1) | (Var::B(..), 1) => "",
                     _ => " !domain",
@@ -1097,7 +1212,50 @@ struct Stats {
 // ------------------------------------------------------------------------------------------------
 // generator
 
+/// up to 8 priority levels from a palette that includes the extremes of i32
+fn gen_levels(rng: &mut Rng) -> Vec<i32> {
+    let palette: [i32; 10] = [0, 1, 2, 3, -1, -2, 5, 100, i32::MAX, i32::MIN];
+    let n_levels = rng.range(1, 8) as usize;
+    let mut levels: Vec<i32> = Vec::new();
+    while levels.len() < n_levels {
+        let p = if rng.chance(4, 5) { palette[rng.below(4) as usize] } else { *rng.pick(&palette) };
+        if !levels.contains(&p) {
+            levels.push(p);
+        } else if levels.len() >= 4 && rng.chance(1, 2) {
+            break;
+        }
+    }
+    levels
+}
+
+fn gen_task_ids(rng: &mut Rng, n: u64) -> Vec<TaskId> {
+    let mut ids: BTreeSet<(u32, u32)> = BTreeSet::new();
+    let mut res = Vec::new();
+    for _ in 0..n {
+        let id = loop {
+            let x = (rng.range(1, 3) as u32, rng.range(0, 30) as u32);
+            if ids.insert(x) {
+                break x;
+            }
+        };
+        res.push(TaskId::new(JobId::new(id.0), JobTaskId::new(id.1)));
+    }
+    res
+}
+
+/// Three families: the cpu-only distribution of the first version of this component (a bit more than half of the
+/// cases, so that the fragment survey stays comparable), random two-kind instances, and two-kind instances built
+/// around a partly busy worker whose running task is larger than what a higher-priority class leaves over.
 fn gen_spec(rng: &mut Rng, thorough: bool) -> Spec {
+    match rng.weighted(&[11, 6, 3]) {
+        0 => gen_spec_cpu(rng, thorough),
+        1 => gen_spec_two(rng, thorough),
+        _ => gen_spec_directed(rng),
+    }
+}
+
+/// cpu-only request classes on workers without gpus
+fn gen_spec_cpu(rng: &mut Rng, thorough: bool) -> Spec {
     let max_workers = 3;
     let nw = rng.weighted(&[3, 4, 3]) + 1;
     let nw = nw.min(max_workers);
@@ -1111,9 +1269,9 @@ fn gen_spec(rng: &mut Rng, thorough: bool) -> Spec {
     let n_classes = (n_ready + rng.weighted(&[6, 3, 1])).min(4);
     // mostly the default weight; sometimes other weights (then no instance is in F2)
     let odd_weights = rng.chance(1, 6);
-    let classes: Vec<(u32, u64)> = sizes[..n_classes]
+    let classes: Vec<(u32, u32, u64)> = sizes[..n_classes]
         .iter()
-        .map(|c| (*c, if odd_weights { *rng.pick(&[5_000u64, 10_000, 20_000, 100_000]) } else { 10_000 }))
+        .map(|c| (*c, 0, if odd_weights { *rng.pick(&[5_000u64, 10_000, 20_000, 100_000]) } else { 10_000 }))
         .collect();
     let busy_case = rng.chance(2, 5);
     let mut workers = Vec::new();
@@ -1138,34 +1296,137 @@ fn gen_spec(rng: &mut Rng, thorough: bool) -> Spec {
                 blocked.push(c);
             }
         }
-        workers.push(WorkerSpec { cpus, pre, blocked });
+        workers.push(WorkerSpec { cpus, gpus: 0, pre, blocked });
     }
     let max_tasks = if thorough { 12 } else { 10 };
     let nt = rng.range(1, max_tasks);
-    // up to 8 priority levels from a palette that includes the extremes of i32
-    let palette: [i32; 10] = [0, 1, 2, 3, -1, -2, 5, 100, i32::MAX, i32::MIN];
-    let n_levels = rng.range(1, 8) as usize;
-    let mut levels: Vec<i32> = Vec::new();
-    while levels.len() < n_levels {
-        let p = if rng.chance(4, 5) { palette[rng.below(4) as usize] } else { *rng.pick(&palette) };
-        if !levels.contains(&p) {
-            levels.push(p);
-        } else if levels.len() >= 4 && rng.chance(1, 2) {
-            break;
-        }
-    }
-    let mut ids: BTreeSet<(u32, u32)> = BTreeSet::new();
+    let levels = gen_levels(rng);
     let mut tasks = Vec::new();
-    for _ in 0..nt {
-        let id = loop {
-            let x = (rng.range(1, 3) as u32, rng.range(0, 30) as u32);
-            if ids.insert(x) {
-                break x;
-            }
-        };
+    for id in gen_task_ids(rng, nt) {
         let class = rng.below(n_ready as u64) as usize;
         let prio = *rng.pick(&levels);
-        tasks.push((TaskId::new(JobId::new(id.0), JobTaskId::new(id.1)), class, prio));
+        tasks.push((id, class, prio));
+    }
+    Spec { classes, workers, tasks, running: rng.chance(1, 2) }
+}
+
+/// request classes over cpus and gpus; workers with 0..3 gpus; busy tasks of ready and of other classes
+fn gen_spec_two(rng: &mut Rng, thorough: bool) -> Spec {
+    let nw = rng.weighted(&[3, 4, 3]) + 1;
+    let n_ready = rng.weighted(&[2, 4, 4]) + 1;
+    let n_classes = (n_ready + rng.weighted(&[5, 4, 1])).min(4);
+    let odd_weights = rng.chance(1, 8);
+    let mut classes: Vec<(u32, u32, u64)> = Vec::new();
+    while classes.len() < n_classes {
+        let cpus = rng.range(1, 4) as u32;
+        let gpus = rng.weighted(&[4, 4, 2]) as u32;
+        if classes.iter().any(|c| c.0 == cpus && c.1 == gpus) {
+            continue;
+        }
+        let w = if odd_weights { *rng.pick(&[5_000u64, 10_000, 20_000, 100_000]) } else { 10_000 };
+        classes.push((cpus, gpus, w));
+    }
+    let busy_case = rng.chance(1, 2);
+    let mut workers = Vec::new();
+    for _ in 0..nw {
+        let cpus = rng.range(1, 6) as u32;
+        let gpus = rng.weighted(&[3, 3, 3, 1]) as u32;
+        let mut pre = Vec::new();
+        let mut blocked = Vec::new();
+        let (mut used, mut used2) = (0, 0);
+        if busy_case && rng.chance(2, 3) {
+            for _ in 0..rng.range(1, 2) {
+                let c = rng.below(n_classes as u64) as usize;
+                if used + classes[c].0 <= cpus && used2 + classes[c].1 <= gpus {
+                    used += classes[c].0;
+                    used2 += classes[c].1;
+                    pre.push(c);
+                }
+            }
+        }
+        if rng.chance(1, 12) {
+            let c = rng.below(n_classes as u64) as usize;
+            // (the plain 1-cpu class is what the setup fills workers with, it cannot be the rejected one)
+            if !(classes[c].0 == 1 && classes[c].1 == 0) && used + classes[c].0 <= cpus && used2 + classes[c].1 <= gpus {
+                blocked.push(c);
+            }
+        }
+        workers.push(WorkerSpec { cpus, gpus, pre, blocked });
+    }
+    let max_tasks = if thorough { 12 } else { 10 };
+    let nt = rng.range(1, max_tasks);
+    let levels = gen_levels(rng);
+    let mut tasks = Vec::new();
+    for id in gen_task_ids(rng, nt) {
+        let class = rng.below(n_ready as u64) as usize;
+        let prio = *rng.pick(&levels);
+        tasks.push((id, class, prio));
+    }
+    Spec { classes, workers, tasks, running: rng.chance(1, 2) }
+}
+
+/// A worker with gpus that runs a task of a class X; a (mostly cpu-only) class H with the higher priorities and a class
+/// L that also asks for gpus with the lower ones: the gap H leaves on the worker is small, the running task may be
+/// larger than it, and L weighs more than its cpus say because gpus are scarce.
+fn gen_spec_directed(rng: &mut Rng) -> Spec {
+    let cpus = rng.range(5, 8) as u32;
+    let gpus = rng.range(1, 3) as u32;
+    let x = (rng.range(2, 5).min(cpus as u64 - 2) as u32, if rng.chance(1, 4) { 1 } else { 0 });
+    let h = (rng.range(2, 4) as u32, if rng.chance(1, 5) { 1 } else { 0 });
+    let l = (rng.range(1, 3) as u32, rng.range(1, 2).min(gpus as u64) as u32);
+    // classes in random id order; X may coincide with H or L
+    let mut shapes: Vec<(u32, u32)> = vec![h];
+    for s in [l, x] {
+        if !shapes.contains(&s) {
+            shapes.push(s);
+        }
+    }
+    if rng.chance(1, 4) {
+        let extra = (rng.range(1, 4) as u32, rng.weighted(&[3, 1]) as u32);
+        if !shapes.contains(&extra) {
+            shapes.push(extra);
+        }
+    }
+    for i in (1..shapes.len()).rev() {
+        let j = rng.below(i as u64 + 1) as usize;
+        shapes.swap(i, j);
+    }
+    let idx = |s: (u32, u32)| shapes.iter().position(|y| *y == s).unwrap();
+    let (hi, li, xi) = (idx(h), idx(l), idx(x));
+    let odd_weights = rng.chance(1, 10);
+    let classes: Vec<(u32, u32, u64)> = shapes
+        .iter()
+        .map(|s| (s.0, s.1, if odd_weights { *rng.pick(&[5_000u64, 10_000, 20_000]) } else { 10_000 }))
+        .collect();
+    // mostly one running task of class X, sometimes two, sometimes an idle worker
+    let mut pre = if rng.chance(1, 5) { vec![] } else { vec![xi] };
+    if !pre.is_empty() && rng.chance(1, 5) && 2 * x.0 <= cpus && 2 * x.1 <= gpus {
+        pre.push(xi);
+    }
+    let mut workers = vec![WorkerSpec { cpus, gpus, pre, blocked: vec![] }];
+    if rng.chance(3, 10) {
+        let w2 = WorkerSpec { cpus: rng.range(1, 3) as u32, gpus: rng.weighted(&[2, 1]) as u32, pre: vec![], blocked: vec![] };
+        if rng.chance(1, 2) {
+            workers.insert(0, w2);
+        } else {
+            workers.push(w2);
+        }
+    }
+    let levels: [i32; 4] = [0, 1, 2, 3];
+    let ph = levels[rng.range(1, 3) as usize];
+    let pl = if rng.chance(4, 5) { levels[rng.below(ph as u64) as usize] } else { *rng.pick(&levels) };
+    let (nh, nl, nx) = (rng.range(1, 3), rng.range(1, 4), rng.weighted(&[5, 2, 2, 1]) as u64);
+    let ids = gen_task_ids(rng, nh + nl + nx);
+    let mut tasks = Vec::new();
+    for (k, id) in ids.into_iter().enumerate() {
+        let k = k as u64;
+        if k < nh {
+            tasks.push((id, hi, ph));
+        } else if k < nh + nl {
+            tasks.push((id, li, pl));
+        } else {
+            tasks.push((id, if rng.chance(1, 2) { hi } else { li }, *rng.pick(&levels)));
+        }
     }
     Spec { classes, workers, tasks, running: rng.chance(1, 2) }
 }
@@ -1213,18 +1474,24 @@ fn replay() {
                     Spec { classes: vec![], workers: vec![], tasks: vec![], running: false },
                 ));
             }
-            ["op", "worker", _id, total, _free, assigned, blocked] => {
+            // `total2 free2` / `need2` (second resource kind) are absent in traces recorded before the extension
+            ["op", "worker", _id, total, _free, assigned, blocked, rest @ ..] if rest.is_empty() || rest.len() == 2 => {
                 if let Some((_, _, s)) = &mut cur {
                     s.workers.push(WorkerSpec {
                         cpus: (total.parse::<u64>().unwrap() / UNIT) as u32,
+                        gpus: rest.first().map(|x| (x.parse::<u64>().unwrap() / UNIT) as u32).unwrap_or(0),
                         pre: crate::util::parse_list(assigned).into_iter().map(|x| x as usize).collect(),
                         blocked: crate::util::parse_list(blocked).into_iter().map(|x| x as usize).collect(),
                     });
                 }
             }
-            ["op", "class", _rq, need, weight] => {
+            ["op", "class", _rq, need, weight, rest @ ..] if rest.len() <= 1 => {
                 if let Some((_, _, s)) = &mut cur {
-                    s.classes.push(((need.parse::<u64>().unwrap() / UNIT) as u32, weight.parse().unwrap()));
+                    s.classes.push((
+                        (need.parse::<u64>().unwrap() / UNIT) as u32,
+                        rest.first().map(|x| (x.parse::<u64>().unwrap() / UNIT) as u32).unwrap_or(0),
+                        weight.parse().unwrap(),
+                    ));
                 }
             }
             ["op", "queue", rq, entries] => {
